@@ -154,7 +154,8 @@ class Check:
                   "pstring": ("src/paulie/common/pauli_string_bitarray.py", "PSGen.v", "PSRefine.v", "Model/Pauli.v"),
                   "collection": ("src/paulie/common/pauli_string_collection.py", "CollGen.v", "CollRefine.v", "Model/Collection.v"),
                   "parser": ("src/paulie/common/pauli_string_parser.py", "ParserGen.v", "ParserRefine.v", "Model/Parser.v"),
-                  "table": ("src/paulie/common/two_local_generators.py", "TableGen.v", "TableRefine.v", "Model/Families.v")}
+                  "table": ("src/paulie/common/two_local_generators.py", "TableGen.v", "TableRefine.v", "Model/Families.v"),
+                  "apps": ("src/paulie/common/get_graph.py, application/otoc.py, fourpoint.py, charges.py and the graph methods of pauli_string_collection.py", "AppGen.v", "AppRefine.v", "Model/Graph.v, Model/Orbit.v")}
 
     def check_translation(self, kind="classification"):
         """Regenerate the Gallina translation of part of the source from REPO's working tree (tools/py2coq.py) and
